@@ -51,6 +51,7 @@ class Check:
     def __init__(self, prop, tier="quick", seed=0):
         self.prop = prop
         self.tier = tier
+        os.environ["VERIF_TIER_ACTIVE"] = tier        # read by the forked path workers
         self.seed = seed
         self.t0 = time.time()
         self.vcs = []            # solve.VC
@@ -421,19 +422,21 @@ def _prove_path(item):
         except z3.Z3Exception:
             out["reachable"] = True
     keep_text = n <= 2
+    thorough = os.environ.get("VERIF_TIER_ACTIVE") == "thorough"
     for name, hyps, goal, meta in r.vcs:
         st, solver, ms, model, detail, smt2 = solve.solve_terms(hyps, goal, out["inputs"], budget)
         if st == "unknown":
             st, solver, ms2, model, detail, smt2b = solve.solve_terms(hyps, goal, out["inputs"], budget * 4)
             ms += ms2
             smt2 = smt2 or smt2b
-        if keep_text and smt2 is None and len(out["vcs"]) < 2:
+        if (keep_text and smt2 is None and len(out["vcs"]) < 2) or (thorough and smt2 is None and st == "unsat" and len(hyps) < 400):
+            # thorough tier: the text is needed for the second solver's re-check
             sv = z3.Solver()
             sv.add(*hyps)
             sv.add(z3.Not(goal))
             smt2 = sv.to_smt2()
         out["vcs"].append({"name": name, "status": st, "solver": solver, "ms": ms, "model": model, "detail": detail,
-                           "meta": meta, "smt2": smt2 if (keep_text or st != "unsat") else None})
+                           "meta": meta, "smt2": smt2 if (keep_text or thorough or st != "unsat") else None})
     return out
 
 
